@@ -23,6 +23,8 @@ ASSUMPTIONS = [
     'every write() is handed a fresh Envelope object that the caller does not mutate afterwards (DictStorage stores and returns that very object)',
     'updates and removes address live messages; the indexes of a marking round are distinct and inside the recipient list get() currently returns (what Queue._handle_partial_relay computes); get may address any id',
     'set_recipients_delivered takes an "iterable of indexes": the same index sets are passed as list, tuple, set, frozenset, range, dict keys view, generator expression, iter(list), filter object, map object and a user-defined iterable class. The model sees the list of indexes one traversal yields; that one-shot iterables are traversed once only is exercised by the harness, "consumed twice" is not expressible in the model',
+    'RedisStorage is run with a rotating set of key prefixes (empty, with and without a trailing colon, containing colons, slashes, dots, regex and glob metacharacters * and ?); a prefix containing "[" is probed and reported, not judged (KEYS takes a glob)',
+    'disk, variant "two handles": two simultaneously live DiskStorage objects on the same directories, operations alternating between them, a fresh one at the end - outside the property as written (it speaks of a backend answering a sequence of operations, and of a NEW queue after a crash), judged because a deploy overlaps the old and the new process',
     'uuid4 is steered: the id-allocation loops draw from scripted candidates (collisions with live and removed ids included); mkstemp names are scripted',
     'redis runs come in two variants: announcements left on the list, and consumed by wait() before every load(); ids returned by load()/wait() are compared with == and type identity against what write() returned',
     'redis: besides the FakeRedis method-level stand-in, the sequences and an overlap stream run through the REAL redis-py client, GeventConnection and ConnectionPool that RedisStorage constructs, against an in-process RESP server (storefakes.RespServer, loopback socket, a few ms latency per command so that up to 40 operations are in flight at once)',
@@ -31,6 +33,11 @@ ASSUMPTIONS = [
 ]
 
 BACKENDS = ['dict', 'dict-shelve', 'disk', 'redis', 'cloud']
+
+# RedisStorage(prefix=...): every redis run takes the next one of these.  KEYS takes a GLOB:
+# '*' and '?' in a prefix still match themselves; a '[' does not (see PREFIX_PROBE).
+PREFIXES = ['slimta:', '', 'slimta_', 'mail.example.com/queue/', 'site:a-', 'a:b:c:', 'x.y|z(1)+$^', 'q*r?:', 'tenant 7:queue:']
+PREFIX_PROBE = 'k[1]:'
 
 
 # ------------------------------------------------------------ reference store
@@ -269,10 +276,10 @@ class Adapter(object):
                 self.srv = sf.RespServer.shared()
                 self.srv.reset(self.fake, self.cfg.get('latency', 0.0))
                 self.stack.callback(self.srv.quiesce)
-                self.st = redismod.RedisStorage(host='127.0.0.1', port=self.srv.port, prefix='slimta:')
+                self.st = redismod.RedisStorage(host='127.0.0.1', port=self.srv.port, prefix=self.cfg.get('prefix', 'slimta:'))
                 self.stack.callback(self.st.redis.connection_pool.disconnect)
             else:
-                self.st = redismod.RedisStorage(prefix='slimta:')
+                self.st = redismod.RedisStorage(prefix=self.cfg.get('prefix', 'slimta:'))
                 self.fake = sf.FakeRedis(gate=gates)
                 self.st.redis = self.fake
         elif name == 'cloud':
@@ -283,6 +290,9 @@ class Adapter(object):
             self.disk = self.stack.enter_context(
                 sf.DiskHarness(self.hub, codec=self.cfg.get('codec', True), chunk=self.cfg.get('chunk'), gate=gates))
             self.st = self.disk.storage()
+            # handles=2: two simultaneously live DiskStorage objects on the same directories
+            self.handles = [self.st] + [self.disk.storage() for _ in range(self.cfg.get('handles', 1) - 1)]
+            self.nops = 0
         else:
             raise ValueError(name)
 
@@ -304,6 +314,12 @@ class Adapter(object):
             sh.close()
         self.shelves = None
 
+    def fresh_handle(self):
+        """disk: from now on a brand-new DiskStorage on the same directories"""
+        if self.disk is not None:
+            self.st = self.disk.storage()
+            self.handles = [self.st]
+
     def reopen(self):
         """persistence: close the shelve files and start a fresh DictStorage on them"""
         if self.name == 'dict-shelve' and self.cfg.get('files'):
@@ -322,6 +338,10 @@ class Adapter(object):
     def _do(self, o, form='set'):
         k = o[0]
         st = self.st
+        if self.disk is not None and len(self.handles) > 1:
+            # operations alternate between the handles (A B B A A B ...)
+            st = self.handles[((self.nops * 7) // 3) % len(self.handles)]
+            self.nops += 1
         try:
             if k == 'write':
                 self.hub.set(sf.Choices(o[3], o[4]))
@@ -331,7 +351,7 @@ class Adapter(object):
             if k == 'orphan':
                 # a writer died between HSETNX envelope and the pipeline: envelope field only
                 import pickle
-                self.fake.data[('slimta:%d' % o[1]).encode()] = {
+                self.fake.data[(self.st.prefix + '%d' % o[1]).encode()] = {
                     b'envelope': pickle.dumps(sf.mk_envelope(*o[2]), pickle.HIGHEST_PROTOCOL)}
                 return ('unit',)
             if k in ('load', 'wait'):
@@ -343,7 +363,7 @@ class Adapter(object):
                     try:
                         known = self.written.get(canon_id(rid))
                     except ValueError:
-                        known = None
+                        return ('id-differs', repr(rid), 'not an id write() returned: %r' % sorted(self.written.values()))
                     if not isinstance(rid, str) or (known is not None and (known != rid or type(known) is not type(rid))):
                         return ('id-differs', repr(rid), repr(known))
                 pairs = [(canon_ts(ts), canon_id(i)) for ts, i in pairs]
@@ -622,12 +642,18 @@ def run_sequences(ctx, seqs, label, judged=True, cfgs=None):
             mouts = ctx.model.batch(model_name(b), inputs)
             refouts = ctx.model.batch('c15_ref', [[[enc_op(o) for o in ops], list(ids)] for ops, forms, ids in seqs]) if (b == 'dict' and ci == 0) else None
             for si, ((ops, forms, ids), mo) in enumerate(zip(seqs, mouts)):
+                if b == 'redis':
+                    cfg = dict(cfg, prefix=PREFIXES[(si + ci) % len(PREFIXES)])
+                    ctx.count('redis-prefix:%r' % cfg['prefix'])
                 ad = Adapter(b, cfg)
                 try:
                     ref = Ref()
                     got_all, want_all = [], []
                     marks = [0]
-                    for o, form in zip(ops, forms):
+                    ntail = 1 + len(ids)
+                    for j_, (o, form) in enumerate(zip(ops, forms)):
+                        if cfg.get('handles', 1) > 1 and j_ == len(ops) - ntail:
+                            ad.fresh_handle()
                         want = ref.step(o)
                         got = ad.do(o, form)
                         if ad.disk is not None:
@@ -637,7 +663,7 @@ def run_sequences(ctx, seqs, label, judged=True, cfgs=None):
                         model_res = [dec_res(x[0]) for x in mo[0]]
                     else:
                         model_res = [dec_res(x) for x in mo[0]]
-                    case = dict(stream=label, backend=b, cfg=cfg, ops=ops, forms=forms)
+                    case = dict(stream=label, backend=b, cfg=cfg, ops=ops, forms=forms, ntail=ntail)
                     nontrivial = any(o[0] in ('deliv', 'remove', 'incr') for o in ops)
                     ctx.evaluated((label, b, ci, tuple(ops), tuple(forms)), nontrivial=nontrivial)
                     ctx.count('seq:%s:%s' % (label, b))
@@ -677,6 +703,8 @@ def run_sequences(ctx, seqs, label, judged=True, cfgs=None):
                                     key = 'c15:delivered-marks-lost-for-iterator-argument'
                                 if cfg.get('orphans') and o[0] == 'load' and got[0] == 'exc':
                                     key = 'c15:redis-load-raises-on-half-written-entry'
+                                if cfg.get('handles', 1) > 1:
+                                    key = 'c15:disk-two-handles-%s' % o[0]
                                 fail(ctx, key, dict(case, at=j),
                                          '%s %r returned %r, the reference store returns %r' % (b, o, got, want))
                             else:
@@ -698,7 +726,7 @@ def stream_random(ctx, n, nops):
         assert wf
         seqs.append((ops, forms, ids))
     cfgs = {'cloud': [dict(mq=True, fails=(False, True, False)), dict(mq=False, aws_like=False)],
-            'disk': [dict(codec=True, chunk=7), dict(codec=False)],
+            'disk': [dict(codec=True, chunk=7), dict(codec=False), dict(codec=True, chunk=7, handles=2)],
             'dict-shelve': [{}, dict(files=True)]}
     run_sequences(ctx, seqs, 'random', cfgs=cfgs)
 
@@ -1081,7 +1109,10 @@ def replay(ctx, case):
         ad = Adapter(c['backend'], c.get('cfg') or {})
         ref = Ref()
         try:
-            for o, form in zip(ops, c.get('forms') or ['set'] * len(ops)):
+            for j, (o, form) in enumerate(zip(ops, c.get('forms') or ['set'] * len(ops))):
+                if (c.get('cfg') or {}).get('handles', 1) > 1 and j == len(ops) - c.get('ntail', 0):
+                    ad.fresh_handle()
+                    print('-- a fresh DiskStorage on the same directories from here on')
                 print(o[0], o[1:3], '->', ad.do(o, form), ' reference:', ref.step(o))
         finally:
             ad.close()
